@@ -82,6 +82,37 @@ def check(scn, seed, models=None, skipped=None):
     return common.summarize_run(res, PROP, findings, True, sample, probes, E.nontrivial_hash(scn, res))
 
 
+C03_RULES = ("never-acked", "leak", "ack-twice", "multiple-ack", "carrier-lost", "not-drained")
+
+
+def check_responses(scn, meta, seed):
+    """Task-token tasks whose callbacks / ordinary replies arrive twice, late (after the time-out), forged, or after the
+    callback already completed the task: every such response is an orphan that still has to be acknowledged once, and
+    nothing may be left in the engine's dictionaries."""
+    from checks import c15
+    res, fs = c15.check_token(scn, dict(meta), seed)
+    findings = []
+    for f in res.findings:
+        if f["property"] == PROP and not (f["rule"] == "carrier-lost"):
+            findings.append(dict(f, witness=f.get("witness") or meta["stream"]))
+    if res.sim.errors:
+        findings.append({"property": PROP, "rule": "engine-exception", "witness": None,
+                         "detail": repr(res.sim.errors[0][:3]), "step": None, "t": None})
+    for f in findings:
+        f["token_meta"] = meta
+    E.attach_replay(findings, scn, seed, res)
+    probes = {"responses:runs": 1, "responses:stream=" + meta["stream"]: 1, "responses:flavour=" + meta["flavour"]: 1}
+    return common.summarize_run(res, PROP, findings, True, None, probes, E.nontrivial_hash(scn, res))
+
+
+def run_responses(i, extra):
+    from checks import c15
+    seed = common.run_seed(6000000 + i)
+    rng = random.Random(seed)
+    scn, meta = c15.token_case(rng, seed)
+    return check_responses(scn, meta, seed)
+
+
 def main(argv):
     if len(argv) > 1 and argv[0] == "--replay":
         return replay(argv[1])
@@ -89,8 +120,10 @@ def main(argv):
     n = 2500 if tier == "quick" else 100000
     rep = common.Report(PROP)
     from checks import minimise as _MIN
-    rep.minimiser = lambda f: _MIN.scenario(f, lambda scn, seed: check(scn, seed))
+    rep.minimiser = lambda f: _MIN.scenario(f, lambda scn, seed: check(scn, seed)) if not f.get("token_meta") else f
     for r in common.run_batch("checks.c03", "run_one", range(n), {"tier": tier}):
+        rep.absorb(r)
+    for r in common.run_batch("checks.c03", "run_responses", range(500 if tier == "quick" else 20000), {"tier": tier}):
         rep.absorb(r)
     return rep.finish(
         rule="1-4 concurrent executions of independently generated machines (families %s) per simulated run under a "
@@ -99,7 +132,10 @@ def main(argv):
              "notification not yet sent - has a queued or unacknowledged event, an outstanding task request or an "
              "armed timer created on its behalf); every delivery is acknowledged exactly once; at quiescence the "
              "engine's unacknowledged_messages/branch_metadata/pending_requests/cancellers/orphaned_responses and its "
-             "queues are empty; distinct = distinct (scenario, interleaving) hashes" % (
+             "queues are empty; a second slice drives .waitForTaskToken tasks (rpcmessage and startExecution flavours) with "
+             "callback streams that leave orphaned responses (duplicate, late after the time-out, forged, truncated, ordinary "
+             "reply before the callback, error reply) and applies the same exactly-once-ack and drain rules to the reply "
+             "queue; distinct = distinct (scenario, interleaving) hashes" % (
                  sorted(set(FAMILIES)), ", ".join(POLICIES)),
         assumptions=["no faults injected (crash/restart is C04)", "legal schedules only: per-queue FIFO, timers never early"])
 
@@ -107,7 +143,10 @@ def main(argv):
 def replay(path):
     with open(path) as f:
         rec = json.load(f)
-    r = check(rec["scenario"], rec["seed"])
+    if rec.get("token_meta"):
+        r = check_responses(rec["scenario"], rec["token_meta"], rec["seed"])
+    else:
+        r = check(rec["scenario"], rec["seed"])
     same = [f for f in r["findings"] if f["rule"] == rec["rule"]]
     print("replay %s: %s" % (path, "REPRODUCED rule=%s%s" % (rec["rule"], common.digest_note(rec, same)) if same else "not reproduced"))
     return 1 if same else 0
